@@ -33,18 +33,36 @@ class C04(Prop):
     thorough_cases = 2000000
     shrink_data = False
 
+    def shrinkable(self, case):
+        return not case.get('modular')
+
     def gen(self, rng, ctx):
         c = lang.dense_cfg(rng)
         if rng.random() < 0.12:
             c.transcend = True
         if rng.random() < 0.2:
             c.untyped = 0.2
+        modular = rng.random() < 0.15
+        if modular:
+            c.dup = 0.35
         f = lang.gen_formula(rng, c)
         names = lang.variables(f) or [c.vars[0]]
         case = {'formula': f, 'signals': sig_text(lang.gen_signals(rng, names)),
                 'kind': rng.choice(['ct', 'ct', 'ct_off'])}
-        if rng.random() < 0.2:
-            case['more'] = [sig_text(lang.gen_signals(rng, names))]
+        if modular and lang.depth(f) >= 2:
+            top, defs = lang.decompose(rng, f, rng.randint(1, 3))
+            if defs:
+                case['modular'] = {'top': lang.to_jsonable(top), 'defs': [[nm, lang.to_jsonable(g)] for nm, g in defs],
+                                   'consts': [], 'style': rng.choice(['one-text', 'subspecs'])}
+        if rng.random() < (0.5 if modular else 0.2):
+            from fractions import Fraction as Fr
+            if rng.random() < 0.6:
+                # object re-use is only judged on signals that start at 0 (see judge): make that the common case
+                case['signals'] = sig_text(dict((k, lang.gen_signal(rng, start=Fr(0))) for k in names))
+                case['more'] = [sig_text(dict((k, lang.gen_signal(rng, start=Fr(0))) for k in names))]
+            else:
+                case['more'] = [sig_text(lang.gen_signals(rng, names))]
+            case['failing_between'] = rng.random() < 0.5 and len(names) >= 2
         if rng.random() < 0.1:
             case['useed'] = rng.randrange(1 << 30)
         return case
@@ -77,8 +95,13 @@ class C04(Prop):
         v.info['start:' + ('0' if start == 0 else 'late')] = 1
         for o in lang.ops_of(f):
             v.info['op:' + o] = 1
+        sd = {'text': text, 'vars': names}
+        if case.get('modular') and case.get('useed') is None:
+            from rtverif.props.c09 import modular_sd
+            sd = modular_sd(case['modular'], names)
+            v.info['class:modular'] = 1
         try:
-            mon = drive.Mon(case.get('kind', 'ct'), {'text': text, 'vars': names})
+            mon = drive.Mon(case.get('kind', 'ct'), sd)
             out = mon.evaluate(*drive.ct_args(sig, names))
         except Exception as e:
             if all(x != x for x in exp.vs):
@@ -115,6 +138,14 @@ class C04(Prop):
             en2 = min(s[-1][0] for s in sig2.values())
             if en2 < st2 or set(s[0][0] for s in sig2.values()) != set([0]) or set(s[0][0] for s in sig.values()) != set([0]):
                 break              # keep this class away from the open finding D-dense-origin
+            if case.get('failing_between'):
+                # a call that fails part-way in between (the last variable carries no numbers)
+                badargs = drive.ct_args(sig2, names)
+                badargs[-1] = [badargs[-1][0], [[t_, None] for t_, _ in badargs[-1][1]]]
+                try:
+                    mon.evaluate(*badargs)
+                except Exception:
+                    v.info['failing-call-between-evaluations'] = 1
             try:
                 exp2 = ref.evaluate(f, sig2)
                 out2 = mon.evaluate(*drive.ct_args(sig2, names))
